@@ -1731,6 +1731,17 @@ class Executor:
             raise Unsupported(f'method {name} on an object of unknown class (line {getattr(node, "lineno", 0)})')
         con = self.ctx.registry.lookup_method(self.repo, cls, name)
         if con is not None:
+            # modular OO reasoning: the contract found for the static class also governs overriders in subclasses.
+            # An overrider without a contract of its own is an assumption (behavioural subtyping), listed in the evidence.
+            if cls not in self.ctx.registry.exact_classes:
+                keys = self.ctx.registry.contracts
+                base = self.repo.resolve_method(cls, name)
+                for c in self.repo.subclasses(cls):
+                    if c.name != cls and name in c.methods and c.methods[name] is not base:
+                        q = f'{c.module}.{c.name}.{name}'
+                        if q not in keys and not any(k.startswith(q + '@') for k in keys):
+                            self.ctx.note(f'ASSUMED behavioural subtyping: {c.name}.{name} (no contract of its own) satisfies the '
+                                          f'contract {con.qualname} applied to a receiver of static class {cls}')
             return self.apply_contract(st, con, [recv] + args, kwargs, node)
         fi = self.repo.resolve_method(cls, name)
         if fi is None:
@@ -1984,6 +1995,10 @@ class Executor:
                     st.assume(self.spec_bool(st, src, {}))
             finally:
                 st.heap0, st.locals0 = saved0
+                # a field first touched by the callee's postcondition was never written before: it belongs to the entry heap too
+                for f_, a_ in pre_heap.items():
+                    if f_ not in st.heap0 and z3.is_const(a_) and a_.decl().name() == f'H0!{f_}':
+                        st.heap0[f_] = a_
             if rty.kind == 'tuple' and rty.args:
                 items, t = [], res.t
                 for ety in rty.args:
